@@ -398,49 +398,46 @@ func init() {
 					return
 				}
 				// one side is (derived from) an attribute's Key, the other is not a constant: a twin search
-				for _, side := range []ssa.Value{b.X, b.Y} {
-					direct := false
-					derived := ""
-					if fl := loadedField(side); fl != nil && fieldIs(fl, "Key") {
-						direct = true
+				isKey := func(v ssa.Value) bool {
+					if fl := loadedField(v); fl != nil && fieldIs(fl, "Key") {
+						return true
 					}
-					if f, ok := side.(*ssa.Field); ok {
+					if f, ok := v.(*ssa.Field); ok {
 						if fv := fieldVar(f); fv != nil && fieldIs(fv, "Key") {
-							direct = true
+							return true
 						}
 					}
-					if !direct {
-						for _, o := range p.origins(side, OriginOpts{}) {
-							var src ssa.Value
-							switch x := o.(type) {
-							case *ssa.Slice:
-								src = x.X
-							case *ssa.Call:
-								if len(x.Call.Args) > 0 {
-									src = x.Call.Args[0]
-								}
-							}
-							if src == nil {
-								continue
-							}
-							for _, oo := range append(p.origins(src, OriginOpts{}), src) {
-								if fl := loadedField(oo); fl != nil && fieldIs(fl, "Key") {
-									derived = p.instrPos(b)
-								}
-								if f, ok := oo.(*ssa.Field); ok {
-									if fv := fieldVar(f); fv != nil && fieldIs(fv, "Key") {
-										derived = p.instrPos(b)
-									}
-								}
-							}
-						}
-					}
-					if direct || derived != "" {
-						n++
-						c.check(derived == "", fmt.Sprintf("evalAttributes: attribute keys are compared as they are#%d", n), p.instrPos(b), "the Key itself", "the comparison at "+derived+" matches a name *derived* from an attribute's key against a bound name: attributes whose key only resembles the bound name (a bracketed literal attribute) are taken for its static twin and overwritten or merged")
-						return
-					}
+					return false
 				}
+				var from func(v ssa.Value, d int, seenK map[ssa.Value]bool) bool
+				from = func(v ssa.Value, d int, seenK map[ssa.Value]bool) bool {
+					if v == nil || seenK[v] || d > 5 {
+						return false
+					}
+					seenK[v] = true
+					for _, o := range append(p.origins(v, OriginOpts{}), v) {
+						if isKey(o) {
+							return true
+						}
+						if cl, ok := o.(*ssa.Call); ok && strings.HasPrefix(calleeName(&cl.Call), "strings.") {
+							for _, a := range callArgs(&cl.Call) {
+								if from(a, d+1, seenK) {
+									return true
+								}
+							}
+						}
+					}
+					return false
+				}
+				direct := isKey(b.X) || isKey(b.Y)
+				derivedAny := from(b.X, 0, map[ssa.Value]bool{}) || from(b.Y, 0, map[ssa.Value]bool{})
+				if !direct && !derivedAny {
+					return
+				}
+				n++
+				// the bound name is cut out of the binding's own key (`:title` -> title): that side is derived by design.
+				// The *other* side — the candidate twin — has to be a key as it stands
+				c.check(direct, fmt.Sprintf("evalAttributes: attribute keys are compared as they are#%d", n), p.instrPos(b), "one side is a Key itself", "the comparison at "+p.instrPos(b)+" matches two names that are both *derived* from attribute keys: the candidate twin's key is transformed before it is compared (brackets stripped, …), so an attribute whose key only resembles the bound name — a bracketed literal attribute — is taken for its static twin and overwritten or merged")
 			})
 			if n == 0 {
 				undecided("evalAttributes compares no attribute key with a computed name")
@@ -529,6 +526,153 @@ func init() {
 			}
 			if n == 0 {
 				undecided("Open has no error return after its walk")
+			}
+		},
+	})
+}
+
+func init() {
+	register(&Rule{
+		ID: "C09.R13", Props: []string{"C09", "C10", "C14"}, Min: 1,
+		Doc: "what comes out of a shared memo is read-only: every value the module reads out of a sync.Map (Load / LoadOrStore / Range) or out of a package-level map is followed — through type assertions, into the functions it is passed to — and nothing is stored through it (an element of a cached slice, an entry of a cached map, a field of a cached struct). The memo's own locking protects the memo, not what it hands out: a cached []styleDecl that setStyleDecl updates in place carries one request's `color:red` into every later render that merges the same static style text",
+		Run: func(p *Prog, c *Ctx) {
+			t := newROTaint(p)
+			seeds := 0
+			for _, fn := range p.liveFuncs() {
+				if pk := funcPkg(fn); pk == nil || strings.Contains(pk.Path(), "/cmd/") {
+					continue
+				}
+				for _, site := range callsIn(fn) {
+					nm := calleeName(site.Common())
+					if nm != "(*sync.Map).Load" && nm != "(*sync.Map).LoadOrStore" {
+						continue
+					}
+					cv, ok := site.(*ssa.Call)
+					if !ok || cv.Referrers() == nil {
+						continue
+					}
+					for _, r := range *cv.Referrers() {
+						if ex, ok := r.(*ssa.Extract); ok && ex.Index == 0 {
+							seeds++
+							t.seed(ex, "the value read out of the shared memo at "+p.instrPos(cv))
+						}
+					}
+				}
+			}
+			t.run()
+			c.ok("memo values followed", "-", fmt.Sprintf("%d reads of shared memos followed to all uses", seeds))
+			for _, vi := range t.viol {
+				c.fail(fmt.Sprintf("%s: %s through a memoised value", shortName(vi.at.Parent()), vi.what), p.instrPos(vi.at), vi.what+" on a value that every later reader of the memo gets too: "+shortWhy(vi.why)+" — one request's data is written into what the next request reads as the template's own")
+			}
+		},
+	})
+
+	register(&Rule{
+		ID: "C05.R18", Props: []string{"C05"}, Min: 1,
+		Doc: "a component is the file it was registered with: RegisterComponent stores the file name it is given — it does not complete, normalise or re-spell it. The shorthand tag and `<template include=\"…\">` must name the same file: `partials/nav` registered for `<site-nav>` is `partials/nav`, not `partials/nav.vuego`",
+		Run: func(p *Prog, c *Ctx) {
+			fn := p.MustFn("(*vuego.Vue).RegisterComponent")
+			n := 0
+			eachInstr(fn, func(in ssa.Instruction) {
+				mu, ok := in.(*ssa.MapUpdate)
+				if !ok {
+					return
+				}
+				n++
+				_, isPrm := mu.Value.(*ssa.Parameter)
+				c.check(isPrm, fmt.Sprintf("RegisterComponent: the file name is stored as given#%d", n), p.instrPos(mu), "the parameter itself", "the registry stores something made from the file name ("+describeValue(mu.Value)+"), not the name: the shorthand tag includes another file than the explicit include of the same name")
+			})
+			if n == 0 {
+				undecided("RegisterComponent stores nothing")
+			}
+		},
+	})
+
+	register(&Rule{
+		ID: "C08.R17", Props: []string{"C08", "C03", "C13"}, Min: 2,
+		Doc: "a condition sees the scopes as they are now: the environment that the condition evaluator hands to ExprEvaluator.Eval is the result of Stack.EnvMap() called there and then — not a merged view that the stack keeps between calls. A kept view has to be dropped by every Push, Pop and Set on every way; the include evaluator pushes and pops scopes the stack did not make itself, and a condition after an include then reads the partial's variables where {{ }} next to it prints the page's",
+		Run: func(p *Prog, c *Ctx) {
+			fn := p.MustFn("(*vuego.Vue).evalConditionExpr")
+			n := 0
+			for _, site := range callsIn(fn) {
+				if calleeName(site.Common()) != "(*vuego.ExprEvaluator).Eval" {
+					continue
+				}
+				n++
+				fresh := false
+				for _, o := range append(p.origins(site.Common().Args[2], OriginOpts{}), site.Common().Args[2]) {
+					if cl, ok := o.(*ssa.Call); ok && calleeName(&cl.Call) == "(*vuego.Stack).EnvMap" {
+						fresh = true
+					}
+				}
+				c.check(fresh, fmt.Sprintf("evalConditionExpr: Eval#%d gets a fresh EnvMap()", n), p.instrPos(site), "Stack.EnvMap() called for this evaluation", "the condition is evaluated against an environment that does not come out of Stack.EnvMap() here ("+describeValue(site.Common().Args[2])+"): a view kept by the stack goes stale wherever a scope is pushed or popped without telling it")
+			}
+			if n == 0 {
+				undecided("evalConditionExpr does not call Eval")
+			}
+		},
+	})
+
+	register(&Rule{
+		ID: "C06.R17", Props: []string{"C06", "C07"}, Min: 1,
+		Doc: "a page's slot template keeps its <template>: both collectors of supplied slot content — extractSlotContent for an include tag, extractSlotsFromDOM for a page rendered through layouts — record the <template #name=…> element itself (SlotContent.TemplateNode) next to its children. The slot evaluator tells a scoped template from plain content by that field; without it the props a <slot> binds (`#head=\"h\"`, `#entry=\"{ label, n }\"`) never reach the page's content",
+		Run: func(p *Prog, c *Ctx) {
+			n := 0
+			for _, name := range []string{"vuego.extractSlotContent", "vuego.extractSlotsFromDOM"} {
+				fn := p.MustFn(name)
+				sets := false
+				makes := false
+				eachInstr(fn, func(in ssa.Instruction) {
+					st, ok := in.(*ssa.Store)
+					if !ok {
+						return
+					}
+					if fv := fieldVar(st.Addr); fv != nil {
+						if fieldIs(fv, "TemplateNode") && !isNilConst(st.Val) {
+							sets = true
+						}
+						if fieldIs(fv, "Nodes") {
+							makes = true
+						}
+					}
+				})
+				if !makes {
+					continue
+				}
+				n++
+				c.check(sets, shortName(fn)+": records the slot template element", p.pos(fn.Pos()), "SlotContent.TemplateNode is set", "the collector builds SlotContent values with Nodes but without TemplateNode: content that was supplied as `<template #name=\"props\">` is treated as plain children, and the props the slot binds are lost")
+			}
+			if n == 0 {
+				undecided("no collector builds SlotContent values")
+			}
+		},
+	})
+
+	register(&Rule{
+		ID: "C03.R20", Props: []string{"C03"}, Min: 1,
+		Doc: "a chain ends at its last member: what chainEnd returns is the position of an element that passed the member test (the start, or a position assigned on the member edge of the scan) — not a position computed from where the scan stopped (`idx - 1`). Text and comments *between* members belong to the chain; text after the last member is a sibling that is rendered unchanged, and a scan that counts it in swallows it",
+		Run: func(p *Prog, c *Ctx) {
+			fn := p.MustFn("vuego.chainEnd")
+			n := 0
+			for _, r := range returnsOf(fn) {
+				if len(r.Results) == 0 {
+					continue
+				}
+				n++
+				arith := ""
+				for _, o := range append(p.origins(r.Results[0], OriginOpts{}), r.Results[0]) {
+					if b, ok := o.(*ssa.BinOp); ok && (b.Op == token.SUB || b.Op == token.ADD) {
+						if _, isPhi := b.X.(*ssa.Phi); isPhi {
+							if loopHeaderOf(b.Block()) == nil {
+								arith = p.instrPos(b)
+							}
+						}
+					}
+				}
+				c.check(arith == "", fmt.Sprintf("chainEnd: return#%d is a member's position", n), p.instrPos(r), "assigned on the member edge", "the result is computed from the scan position after the loop (at "+arith+"): whatever the scan passed last — text, a comment — is counted into the chain, and the text that follows a chain is dropped with the unselected members")
+			}
+			if n == 0 {
+				undecided("chainEnd returns nothing")
 			}
 		},
 	})
